@@ -13,7 +13,7 @@ def run(ctx):
                            extra_assume=["genesis validators satisfy the validator limits (count <= maxValidatorCnt, own stake >= minValidatorStake), as the property requires",
                                          "the node never diffs against the genesis set (its record of the last announced set is empty until the end of block 2): a genesis validator leaving in block 1 is never removed — known finding, C10_genesis_leaver_refuted",
                                          "restarts: covered by C07 (fix 90bd59f); the restart differential is run here too"],
-                           profile="corpus restart",
+                           profile="corpus restart noise judge",
                            nontrivial_rule="the predicate folds the returned updates over the genesis validator set (Tendermint's semantics: power 0 removes a member, which must exist; no duplicates; no negative power) and requires after every block >= 2 the set the previous block's committed ledger prescribes: eligible delegatees ranked by (total power, stake count, address), truncated to maxValidatorCnt, power = total power")
     if res is None:
         return
